@@ -2616,13 +2616,18 @@ func (t *Terminal) resizeIfNeeded() bool {
 
 	// Check if the header borders are used and header has changed
 	allHeaderLines := t.visibleHeaderLines()
+	// Header lines (--header-lines) that are currently visible
+	visibleHeaderLines := t.headerLines
+	if !t.headerVisible {
+		visibleHeaderLines = 0
+	}
 	primaryHeaderLines := allHeaderLines
 	if t.headerLinesShape.Visible() {
-		primaryHeaderLines -= t.headerLines
+		primaryHeaderLines -= visibleHeaderLines
 	}
 	if (t.headerBorderShape.Visible() || t.headerLinesShape.Visible()) &&
 		(t.headerWindow == nil && primaryHeaderLines > 0 || t.headerWindow != nil && primaryHeaderLines != t.headerWindow.Height()) ||
-		t.headerLinesShape.Visible() && (t.headerLinesWindow == nil && t.headerLines > 0 || t.headerLinesWindow != nil && t.headerLines != t.headerLinesWindow.Height()) {
+		t.headerLinesShape.Visible() && (t.headerLinesWindow == nil && visibleHeaderLines > 0 || t.headerLinesWindow != nil && visibleHeaderLines != t.headerLinesWindow.Height()) {
 		t.printAll()
 		return true
 	}
